@@ -1,7 +1,9 @@
 """Typed, constructive generators of valid WebAssembly modules (E1 generators, DESIGN section 4)."""
 from . import wasm
 from .wasm import (I32, I64, F32, F64, NUMERIC, SAT, LOADS, STORES, Module, Func, natural_align)
-from .pools import draw_value
+from .pools import draw_value, is_snan, quiet
+
+EXCLUDED = {'snan_immediate': 0}     # shapes excluded by construction because of a listed known finding
 
 VTS = (I32, I64, F32, F64)
 INTS = (I32, I64)
@@ -49,7 +51,7 @@ def flat_module(op_names):
 # ---------------------------------------------------------------------------------------------
 class Features(object):
     def __init__(self, ops=ALL_OPS, types=VTS, control=False, calls=False, memory=False, globals_=False, dead_code=False,
-                 trace=False, max_depth=5, stmts=False, atomics=False, bulk=False, avoid_traps=False):
+                 trace=False, max_depth=5, stmts=False, atomics=False, bulk=False, avoid_traps=False, no_snan_consts=True):
         self.ops = ops_by_result(ops)
         self.types = tuple(types)
         self.control, self.calls, self.memory, self.globals, self.dead_code = control, calls, memory, globals_, dead_code
@@ -59,6 +61,8 @@ class Features(object):
         self.atomics = atomics
         self.bulk = bulk
         self.avoid_traps = avoid_traps
+        # known finding C02-snan-immediate-gcc-forwarding: signalling-NaN immediates in bodies are replaced by quiet ones
+        self.no_snan_consts = no_snan_consts
 
 
 class FuncGen(object):
@@ -100,7 +104,11 @@ class FuncGen(object):
 
     # ---- expressions
     def const(self, t):
-        return [('%s.const' % t, draw_value(self.ch, t))]
+        v = draw_value(self.ch, t)
+        if self.f.no_snan_consts and is_snan(t, v):
+            EXCLUDED['snan_immediate'] += 1
+            v = quiet(t, v)
+        return [('%s.const' % t, v)]
 
     def leaf(self, t):
         ch = self.ch
@@ -505,3 +513,158 @@ def expr_module(ch, feat, nfuncs, result_types=None, max_params=4):
         m.funcs.append(Func(t, g.locals, body))
         m.exports.append((b'e%d' % i, 'func', i))
     return m
+
+
+# ---------------------------------------------------------------------------------------------
+# general modules: imports, globals, table, memory, call graph
+# ---------------------------------------------------------------------------------------------
+def general_module(ch, feat, nfuncs=8, host_funcs=0, with_trace=False, nglobals=0, table=False, memory=None,
+                   max_params=4, recursion=False, imported_table=False, imported_globals=0):
+    """returns (module, info) ; info['stats'] = generator feature counters per function index"""
+    m = Module()
+    info = {'stats': {}, 'static': {}}
+    trace_idx = None
+    # imports first (function index space starts with imports)
+    if with_trace:
+        m.imports.append((b'env', b'trace', 'func', m.type_index((I32,), ())))
+        trace_idx = 0
+    for h in range(host_funcs):
+        np_ = ch.below(9) if ch.below(3) == 0 else ch.below(4)
+        ps = [ch.pick(feat.types) for _ in range(np_)]
+        rs = () if ch.below(4) == 0 else (ch.pick(feat.types),)
+        m.imports.append((b'env', b'h%d' % h, 'func', m.type_index(ps, rs)))
+    for g in range(imported_globals):
+        m.imports.append((b'env', b'ig%d' % g, 'global', (ch.pick(feat.types), False)))
+    if imported_table:
+        m.imports.append((b'env', b'tab', 'table', (16 + ch.below(16), None)))
+    nimp = m.n_imported_funcs()
+    for g in range(nglobals):
+        t = ch.pick(feat.types)
+        gv = draw_value(ch, t)
+        if feat.no_snan_consts and is_snan(t, gv):
+            EXCLUDED['snan_immediate'] += 1
+            gv = quiet(t, gv)
+        m.globals.append((t, bool(ch.below(3)), ('%s.const' % t, gv)))
+    mem_mask = None
+    if memory is not None:
+        m.memory = memory
+        m.exports.append((b'mem', 'memory', 0))
+        mem_mask = 0x3fff
+    # decide signatures up front so that later functions can call earlier ones and tables can be planned
+    sigs = []
+    for i in range(nfuncs):
+        np_ = ch.below(9) if (max_params >= 8 and ch.below(3) == 0) else ch.below(min(max_params, 4) + 1)
+        ps = [ch.pick(feat.types) for _ in range(np_)]
+        rs = None if (feat.stmts and ch.below(6) == 0) else ch.pick(feat.types)
+        sigs.append((ps, rs))
+    extra = []
+    if recursion:
+        extra = recursion_templates(ch, m, nimp + nfuncs)
+    nall = nimp + nfuncs + len(extra)
+    # table + element segments
+    indirect = None
+    if table or imported_table:
+        tsize = 16 if imported_table else 8 + ch.below(24)
+        if not imported_table:
+            m.table = (tsize, None if ch.below(2) else tsize + ch.below(4))
+        indirect_map = {}
+        nseg = 1 + ch.below(4)
+        for s in range(nseg):
+            ln = 1 + ch.below(5)
+            use_g = imported_globals and ch.below(3) == 0 and m.imports[[i for i, im in enumerate(m.imports) if im[2] == 'global'][0]][3][0] == I32
+            if use_g:
+                off = None          # offset = imported global 0 (value fixed by the harness: see info['glob_values'])
+                base = info.setdefault('elem_global_value', ch.below(max(tsize - ln, 1)))
+                offins = ('global.get', 0)
+            else:
+                base = ch.below(max(tsize - ln, 1))
+                offins = ('i32.const', base)
+            fl = []
+            for k in range(ln):
+                fi = ch.below(nall)
+                fl.append(fi)
+                indirect_map[base + k] = fi       # later segments win
+            m.elems.append((offins, fl))
+        info['table_map'] = indirect_map
+    for i in range(nfuncs):
+        ps, rs = sigs[i]
+        fidx = nimp + i
+        callable_ = list(range(nimp)) + [nimp + j for j in range(i)] + [nimp + nfuncs + k for k in range(len(extra))]
+        if trace_idx is not None and trace_idx in callable_:
+            callable_.remove(trace_idx)
+        ind = None
+        if (table or imported_table):
+            # only slots whose final target is an import, an earlier function or a template (keeps the call graph acyclic)
+            ind = []
+            for slot, fi in sorted(info['table_map'].items()):
+                if fi < nimp or fi < fidx or fi >= nimp + nfuncs:
+                    ft = m.func_type(fi) if fi < nimp or fi >= nimp + nfuncs else (tuple(sigs[fi - nimp][0]), (sigs[fi - nimp][1],) if sigs[fi - nimp][1] else ())
+                    ind.append((slot, m.type_index(ft[0], ft[1])))
+        g = FuncGen(ch, m, feat, ps, rs, callable_funcs=callable_ if feat.calls else (), trace_func=trace_idx,
+                    indirect=ind, mem_mask=mem_mask)
+        # functions that are not generated yet have no entry in m.funcs: give the generator a view of all signatures
+        g.m = _SigView(m, nimp, sigs, extra)
+        body = g.body()
+        t = m.type_index(ps, (rs,) if rs else ())
+        m.funcs.append(Func(t, g.locals, body))
+        m.exports.append((b'e%d' % i, 'func', fidx))
+        info['stats'][fidx] = g.stats
+    for k, f in enumerate(extra):
+        m.funcs.append(f)
+        m.exports.append((b'r%d' % k, 'func', nimp + nfuncs + k))
+    return m, info
+
+
+class _SigView(object):
+    """module facade used while bodies are being generated: answers type queries for not-yet-emitted functions"""
+
+    def __init__(self, m, nimp, sigs, extra):
+        self._m, self._nimp, self._sigs, self._extra = m, nimp, sigs, extra
+
+    def __getattr__(self, k):
+        return getattr(self._m, k)
+
+    def func_type(self, fidx):
+        if fidx < self._nimp:
+            return self._m.func_type(fidx)
+        i = fidx - self._nimp
+        if i < len(self._sigs):
+            ps, rs = self._sigs[i]
+            return (tuple(ps), (rs,) if rs else ())
+        return self._m.types[self._extra[i - len(self._sigs)].type]
+
+
+def recursion_templates(ch, m, base):
+    """bounded recursive functions (factorial, fibonacci, even/odd mutual recursion, each with an i32 fuel-like argument)"""
+    out = []
+    t = ch.pick((I32, I64))
+    ty = m.type_index((t,), (t,))
+    me = base + len(out)
+    # fac(n) = n <= 1 ? 1 : n * fac(n-1)      (argument masked to 0..15)
+    out.append(Func(ty, [], [
+        ('local.get', 0), ('%s.const' % t, 15), ('%s.and' % t,), ('local.tee', 0), ('%s.const' % t, 2), ('%s.lt_u' % t,),
+        ('if', t, [('%s.const' % t, 1)],
+         [('local.get', 0), ('local.get', 0), ('%s.const' % t, 1), ('%s.sub' % t,), ('call', me), ('%s.mul' % t,)])]))
+    me = base + len(out)
+    out.append(Func(ty, [], [
+        ('local.get', 0), ('%s.const' % t, 15), ('%s.and' % t,), ('local.tee', 0), ('%s.const' % t, 2), ('%s.lt_u' % t,),
+        ('if', t, [('local.get', 0)],
+         [('local.get', 0), ('%s.const' % t, 1), ('%s.sub' % t,), ('call', me),
+          ('local.get', 0), ('%s.const' % t, 2), ('%s.sub' % t,), ('call', me), ('%s.add' % t,)])]))
+    ty2 = m.type_index((I32,), (I32,))
+    ev, od = base + len(out), base + len(out) + 1
+    out.append(Func(ty2, [], [('local.get', 0), ('i32.const', 63), ('i32.and',), ('local.tee', 0), ('i32.eqz',),
+                              ('if', I32, [('i32.const', 1)], [('local.get', 0), ('i32.const', 1), ('i32.sub',), ('call', od)])]))
+    out.append(Func(ty2, [], [('local.get', 0), ('i32.const', 63), ('i32.and',), ('local.tee', 0), ('i32.eqz',),
+                              ('if', I32, [('i32.const', 0)], [('local.get', 0), ('i32.const', 1), ('i32.sub',), ('call', ev)])]))
+    return out
+
+
+def call_script(ch, m, nargs=8, inst=0):
+    script = []
+    fex = [(n, i) for n, kd, i in m.exports if kd == 'func']
+    for e, (n, fi) in enumerate(fex):
+        ps = m.func_type(fi)[0]
+        for _ in range(nargs if ps else 1):
+            script.append(('call', inst, e, gen_args(ch, ps)))
+    return script
